@@ -240,6 +240,10 @@ pub fn grid(fam: Fam, ft: Ft) -> Vec<Cell> {
                     v.push(Cell::newi(fam, &[n], &[1.0 - p]));
                 }
             }
+            // BINV with tiny p and huge n (np < 10): (1-p)^n must not be formed from the rounded 1-p
+            for &(n, p) in &[(1_000_000_000_000_000u64, 5e-16), (2_178_794_427_406_433, 2.688974864378525e-16), (100_000_000_000_000, 7e-14), (1_000_000_000_000, 5e-13), (1u64 << 52, 1e-15), (1u64 << 52, 1.0 - 1e-15)] {
+                v.push(Cell::newi(fam, &[n], &[p]));
+            }
             // squeeze threshold regions and moderate BTPE
             for &(n, p) in &[(50u64, 0.3), (100, 0.5), (1000, 0.3), (1000, 0.7), (100000, 0.01), (1 << 30, 0.5), (1 << 30, 1e-3), (40, 0.5), (25, 0.45)] {
                 v.push(Cell::newi(fam, &[n], &[p]));
